@@ -224,7 +224,7 @@ MANIFEST_TEXT = {
     },
     "C03": {
         "technique": "Lean 4 theorems (rule-loop equations for required / zero-skip / missing entries) + differential correspondence",
-        "text": "Theorems (all inputs): required writes its clause exactly when the value is empty (zero, or slice/array/map of length 0) and writes nothing of its own otherwise; every rule dispatched through a function table is skipped on a zero value (struct, Var, Map, Url); a rule key absent from a Map/Url input yields one required clause per required item. Tie: walk-zero, flat and size streams over every kind, zero and non-zero, four entry points.",
+        "text": "Theorems (all inputs): required writes its clause exactly when the value is empty (zero, or slice/array/map of length 0) and writes nothing of its own otherwise; every rule dispatched through a function table is skipped on a zero value (struct, Var, Map, Url), and C03_optional_empty_silent_flat / _struct: an empty value with ANY list of table rules — any number, any order, with or without messages — leaves the error untouched; a rule key absent from a Map/Url input yields one required clause per required item. Tie: walk-zero, flat and size streams over every kind, zero and non-zero, four entry points.",
         "note": "Trusted: Lean kernel; IsZero transcription (Go 1.23); correspondence. Known finding F-C03-c (interface-typed map values) is reported, not hidden.",
     },
     "C04": {
